@@ -30,6 +30,27 @@ def _mkpool(params, up, extra=None):
         kw['context'] = billiard.get_context(params['ctx'])
     if extra:
         kw.update(extra)
+    if params.get('slow_send'):
+        # widen a window the OS can always produce: a worker is descheduled
+        # right after write() returned, still holding the result queue's lock
+        host = os.getpid()
+        nap = params['slow_send']
+
+        BasePool = Pool
+
+        class SlowSendPool(BasePool):
+            def _setup_queues(self):
+                BasePool._setup_queues(self)
+                w = self._outqueue._writer
+                orig = w.send_bytes
+
+                def send_bytes(*a, **k):
+                    r = orig(*a, **k)
+                    if os.getpid() != host:
+                        time.sleep(nap)
+                    return r
+                w.send_bytes = send_bytes
+        Pool = SlowSendPool
     pool = Pool(**kw)
     for w in pool._pool:
         if w.pid not in up:
